@@ -464,6 +464,7 @@ def shared_edges(d, tol=1e-6):
 def file_topology(d):
     """Corner coordinates in the FILE exhibit exactly the adjacency that BOUT++'s reading of
     the topology integers in the same file gives; theta, chi as documented."""
+    chi_f19 = []
     f = d["file"]
     need = ["ixseps1", "ixseps2", "jyseps1_1", "jyseps2_1", "jyseps1_2", "jyseps2_2", "ny_inner", "nx", "ny", "y_boundary_guards"]
     if any(k not in f for k in need):
@@ -539,9 +540,20 @@ def file_topology(d):
         xin = 0 if min(ix1, ix2) > 0 else None
         if xin is not None:
             fin = np.isfinite(chi[xin, :])
+            no_bt = "Btxy" in f and not np.any(np.array(f["Btxy"]))
             if not np.array_equal(fin, core):
-                fails.append(dict(problem="chi finite/NaN mask does not match the core cells", finite=[int(v) for v in fin], core=[int(v) for v in core]))
-    return result("file: corners exhibit the adjacency BOUT++ reads from ixseps/jyseps/ny_inner; jyseps ordered; theta 0..2pi; chi NaN exactly off the core", n, fails)
+                item = dict(problem="chi finite/NaN mask does not match the core cells", finite=[int(v) for v in fin], core=[int(v) for v in core])
+                if no_bt and not fin.any():
+                    # known finding F19 (reported under its own obligation name): without a toroidal
+                    # field zShift = ShiftAngle = 0 and chi = 0/0 on closed field lines as well
+                    chi_f19.append(item)
+                else:
+                    fails.append(item)
+    out = result("file: corners exhibit the adjacency BOUT++ reads from ixseps/jyseps/ny_inner; jyseps ordered; theta 0..2pi; chi NaN exactly off the core", n, fails)
+    if chi_f19:
+        extra = result("file [F19 class: equilibrium without toroidal field]: chi is NaN (0/0) on closed field lines too", 1, chi_f19)
+        return [out, extra]
+    return out
 
 
 DOCUMENTED_VARS = ["nx", "ny", "y_boundary_guards", "ixseps1", "ixseps2", "jyseps1_1", "jyseps2_1", "jyseps1_2", "jyseps2_2", "ny_inner", "Rxy", "Zxy", "psixy", "dx", "dy", "Brxy", "Bzxy", "Bpxy", "Btxy", "Bxy",
@@ -726,9 +738,10 @@ def run_clauses(d, names):
             import traceback
 
             r = dict(clause=nm, evaluations=0, failures=1, samples=[dict(clause_crashed=repr(e), tb=traceback.format_exc()[-400:])], crashed=True)
-        if r is not None:
-            r["name"] = nm
-            out.append(r)
+        for k, rr in enumerate(r if isinstance(r, list) else [r]):
+            if rr is not None:
+                rr["name"] = nm if k == 0 else "%s#%d" % (nm, k)
+                out.append(rr)
     return out
 
 
